@@ -1,4 +1,5 @@
 import GeoVerif.Model.Stats
+import GeoVerif.Model.InputFile
 /-!
 # Monte-Carlo result rows (C14)
 
@@ -45,5 +46,25 @@ def rowCells (outs : List Line) (report : List Line) : List (Option Line) :=
 /-- rows appended atomically in completion order `order` (indices into the per-task outcomes) -/
 def fileRows {ρ : Type} (outcomes : List (Option ρ)) (order : List Nat) : List ρ :=
   order.filterMap (fun i => (outcomes[i]?).join)
+
+/-! ## the row as text, and `main`'s reading of it -/
+
+/-- `"v1, v2, …, vn, "`: every found value followed by a comma and a blank (as `work_package` appends them) -/
+def rowHead : List (List Char) → List Char
+  | [] => []
+  | v :: vs => v ++ ',' :: ' ' :: rowHead vs
+
+/-- the row text: the values, then the sampled inputs in parentheses -/
+def formatRow (vals : List (List Char)) (tail : List Char) : List Char := rowHead vals ++ '(' :: (tail ++ [')'])
+
+/-- `line.partition(', (')[0]` -/
+def beforeParen : List Char → List Char
+  | [] => []
+  | c :: cs => if [',', ' ', '('].isPrefixOf (c :: cs) then [] else c :: beforeParen cs
+
+/-- `main`'s reading of a row: text before `", ("`, parentheses deleted, split on commas, each cell stripped (what `float()` tolerates) -/
+def parseRowCells (row : List Char) : List (List Char) :=
+  (splitComma ((beforeParen row).filter (fun c => c != '(' && c != ')'))).map strip
+
 
 end GeoVerif.MC
